@@ -36,6 +36,8 @@ VELZ = 4096.0
 IDMAX = 2 ** 20            # ids / particle serials below this keep every float32 field exact
 UNIT = 2 ** 24             # every value times UNIT is an integer (finest quantum used: 2**-23)
 
+HEADER = {'H0': H0, 'BoxSize': BOX, 'ParticleMassHMsun': MPART, 'VelZSpace_to_kms': VELZ}
+
 Z_OF = {'primary': 0.5, 'secondary': 0.575, 'lightcone': 0.5}
 
 HALO_FLOAT_FIELDS = ['sigmav3d_L2com', 'r98_L2com', 'r25_L2com', 'deltac_rank', 'fenv_rank', 'shear_rank',
@@ -196,34 +198,7 @@ def part_decoders():
     }
 
 
-# --------------------------------------------------------------------------- the documented meaning of each returned array
-# (source of the per-array columns handed to the model: which file field an array is filled from)
-
-def halo_columns(ids, expvel, veldev1d):
-    """returned-array name -> float64 array (n or n x 3) of what the file says about these halos, in file order.
-    For 1-D velocity deviates the *file's* 1-D column is returned (the model mirrors what the code does with it)."""
-    d = halo_fields(ids, veldev1d)
-    return {
-        'hpos': d['x_L2com'], 'hvel': d['v_L2com'],
-        'hmass': d['N'].astype(np.float64) * MPART,
-        'hmultis': d['multi_halos'], 'hrandoms': d['randoms'],
-        'hveldev': d['randoms_exp'] if expvel else d['randoms_gaus_vrms'],
-        'hsigma3d': d['sigmav3d_L2com'],
-        'hc': d['r98_L2com'] / d['r25_L2com'], 'hrvir': d['r98_L2com'],
-        'hdeltac': d['deltac_rank'], 'hfenv': d['fenv_rank'], 'hshear': d['shear_rank'],
-    }
-
-
-PART_SOURCE = {'ppos': 'pos', 'pvel': 'vel', 'phvel': 'halo_vel', 'phmass': 'halo_mass', 'pNp': 'Np',
-               'psubsampling': 'downsample_halo', 'prandoms': 'randoms', 'pdeltac': 'halo_deltac',
-               'pfenv': 'halo_fenv', 'pshear': 'halo_shear', 'pranks': 'ranks', 'pranksv': 'ranksv',
-               'pranksp': 'ranksp', 'pranksr': 'ranksr', 'pranksc': 'ranksc'}
-
-
-def part_columns(parts):
-    d = part_fields(parts)
-    return {k: d[v] for k, v in PART_SOURCE.items()}
-
+# --------------------------------------------------------------------------- exact integer view
 
 def to_units(a):
     """exact integer multiples of 1/UNIT; rows of a 2-D array become lists"""
@@ -268,7 +243,7 @@ def write_case(root, case):
     sim_dir = os.path.join(root, 'sim')
     sub_dir = os.path.join(root, 'subsample')
     out_dir = os.path.join(root, 'out')
-    header = {'H0': H0, 'BoxSize': BOX, 'ParticleMassHMsun': MPART, 'VelZSpace_to_kms': VELZ}
+    header = dict(HEADER)
     if ztype == 'lightcone':
         header['LightConeOrigins'] = [[-990.0, -990.0, -990.0], [-990.0, -990.0, -2990.0]]
         d = os.path.join(sim_dir, simname, zdir)
